@@ -1385,7 +1385,8 @@ def gen_exhaustive(tier, rng):
     return cases
 
 
-LABELSETS = [list("ABCDEF"), ["a", "B", "A1", "A", "b2", "Z"], ["X10", "X2", "X1", "Y", "x", "_z"]]
+LABELSETS = [list("ABCDEF"), ["a", "B", "A1", "A", "b2", "Z"], ["X10", "X2", "X1", "Y", "x", "_z"],
+             ["", "0", " ", "False", "A B", "S:A"]]          # falsy / odd labels (the empty string included)
 
 
 def _rand_side(rng, sp, maxc):
@@ -1701,6 +1702,8 @@ TEXTBOOK_FLOWS = [
      [1, 1, 1, 1]),
     ([["e0", [], [["A", 2]]], ["e1", [["A", 1]], [["B", 1]]], ["e2", [["B", 2]], []]], [1, 2, 1]),
     ([["e0", [], [["A", 1]]], ["e1", [["A", 1]], []]], [3, 3]),
+    ([["e0", [], [["A", 1]]], ["e1", [["A", 1]], []]], [12, 12]),                 # two-digit flows and token counts
+    ([["e0", [], [["", 10]]], ["e1", [["", 5]], [["0", 1]]], ["e2", [["0", 1]], []]], [1, 2, 2]),   # falsy labels, coefficient 10
     # pathways of total length 1 (only possible with an edge without effective reactants and products)
     ([["e0", [], []]], [1]),
     ([["e0", [], []]], [2]),
